@@ -32,7 +32,7 @@ func genBroker(c *cf.Case, r *cf.Rng, prop string) {
 	}
 	if r.Intn(4) != 0 {
 		f := cf.Fault{When: cf.When{API: "*", Nth: r.Range(1, total)}}
-		f.Do = r.PickS("wrong-corr", "oversize", "truncate", "short-header", "close", "drop-before", "drop-after", "silence", "stall", "delay", "delay")
+		f.Do = r.PickS("wrong-corr", "oversize", "badlen", "truncate", "short-header", "close", "drop-before", "drop-after", "silence", "stall", "delay", "delay")
 		f.N = r.Intn(1000)
 		if f.Do == "delay" {
 			if r.Bool() {
